@@ -24,6 +24,7 @@ Definition query_agrees (arts : list artifact) (q : query) : bool :=
   let sel := fun ia : nat * artifact => art_sel (q_os q) (q_arch q) (q_req q) (snd ia) in
   let key := fun ia : nat * artifact => a_ver (snd ia) in
   onat_eqb (q_partial q) (option_map fst (partial_resolve key sel ver_pcmp GenInventory.replace_on (idx_arts arts))) &&
+  onat_eqb (q_pnan q) (option_map fst (partial_resolve key sel ver_pcmp_nan GenInventory.replace_on (idx_arts arts))) &&
   onat_eqb (q_total q) (option_map fst (resolve key sel ver_cmp (idx_arts arts))).
 
 Definition agrees (c : case) : bool :=
